@@ -835,9 +835,12 @@ fn handoff<T: Copy + 'static>(b: &Bump<1>, elems: &[T], cap: usize, variant: u8,
     })
 }
 
-fn handoff_str(b: &Bump<1>, text: &str, cap: usize, variant: u8, fallible: bool) -> Option<(usize, usize)> {
+fn handoff_str(b: &Bump<1>, text: &str, cap: usize, variant: u8, fallible: bool, lossy_src: Option<&[u8]>) -> Option<(usize, usize)> {
     use bumpalo::collections::{String as BString, Vec as BVec};
-    let s: BString = if fallible {
+    let s: BString = if let Some(raw) = lossy_src {
+        // decoded (and repaired) text placed in the arena by the lossy decoder
+        BString::from_utf8_lossy_in(raw, b)
+    } else if fallible {
         let mut v: BVec<u8> = BVec::new_in(b);
         if v.try_reserve_exact(cap).is_err() {
             return None;
@@ -886,13 +889,24 @@ impl<const M: usize> Sim<M> {
         let id = self.fresh_id();
         let mut bytes = vec![0u8; len * esz];
         fill_pat(id, &mut bytes);
-        let text: String = (0..len).map(|j| (b'a' + pat(id, j) % 26) as char).collect();
+        let mut text: String = (0..len).map(|j| (b'a' + pat(id, j) % 26) as char).collect();
+        // string variants, when nothing can fail: one in two goes through from_utf8_lossy_in on text damaged with lone
+        // continuation / invalid / truncated-lead bytes; what must be handed over is what std's decoder produces
+        let lossy_raw: Option<Vec<u8>> = if (variant == 4 || variant == 5) && !can_fail && op.b & 0x10 != 0 && len > 0 {
+            let k = 2 + (op.c as usize % 5);
+            let raw: Vec<u8> = text.bytes().enumerate().map(|(j, ch)| if j % k == 0 { [0xFFu8, 0x80, 0xC3, 0xE2, 0xF0][(op.c as usize / 5 + j) % 5] } else { ch }).collect();
+            text = String::from_utf8_lossy(&raw).into_owned();
+            Some(raw)
+        } else {
+            None
+        };
+        let len = if lossy_raw.is_some() { text.len() } else { len };
         let e16: Vec<u16> = if esz == 2 { bytes.chunks(2).map(|c| u16::from_ne_bytes([c[0], c[1]])).collect() } else { vec![] };
         let e32: Vec<u32> = if esz == 4 { bytes.chunks(4).map(|c| u32::from_ne_bytes([c[0], c[1], c[2], c[3]])).collect() } else { vec![] };
         let e64: Vec<u64> = if esz == 8 { bytes.chunks(8).map(|c| u64::from_ne_bytes([c[0], c[1], c[2], c[3], c[4], c[5], c[6], c[7]])).collect() } else { vec![] };
         self.note_align_stats(cap * esz, esz);
         let probe = can_fail && fallible && op.b & 0x20 != 0;
-        let pre = self.pre(if cap > 0 && !probe { Some(l) } else { None }, fallible);
+        let pre = self.pre(if cap > 0 && !probe && lossy_raw.is_none() { Some(l) } else { None }, fallible);
         let what: &'static str = match (variant, fallible) {
             (1, false) => "Vec::with_capacity_in + into_bump_slice_mut",
             (1, true) => "Vec::try_reserve_exact + into_bump_slice_mut",
@@ -900,6 +914,8 @@ impl<const M: usize> Sim<M> {
             (2, true) => "Vec::try_reserve_exact + into_boxed_slice + Box::leak",
             (3, false) => "Vec::with_capacity_in + into_boxed_slice + Box::into_raw",
             (3, true) => "Vec::try_reserve_exact + into_boxed_slice + Box::into_raw",
+            (4, false) if lossy_raw.is_some() => "String::from_utf8_lossy_in + into_bump_str",
+            (5, false) if lossy_raw.is_some() => "String::from_utf8_lossy_in + into_bytes + into_bump_slice",
             (4, false) => "String::with_capacity_in + into_bump_str",
             (4, true) => "Vec::try_reserve_exact + String::from_utf8 + into_bump_str",
             (5, false) => "String::with_capacity_in + into_bytes + into_bump_slice",
@@ -914,7 +930,7 @@ impl<const M: usize> Sim<M> {
         let res = self.call(|b| {
             let b1: &Bump<1> = (b as &dyn std::any::Any).downcast_ref::<Bump<1>>().expect("M == 1");
             match (variant, esz) {
-                (4, _) | (5, _) => handoff_str(b1, &text, cap, variant, fallible),
+                (4, _) | (5, _) => handoff_str(b1, &text, cap, variant, fallible, lossy_raw.as_deref()),
                 (_, 2) => handoff(b1, &e16, cap, variant, fallible, probe, &nb),
                 (_, 4) => handoff(b1, &e32, cap, variant, fallible, probe, &nb),
                 (_, 8) => handoff(b1, &e64, cap, variant, fallible, probe, &nb),
